@@ -183,6 +183,42 @@ func isIntType(t types.Type) bool {
 // either directly or through a same-package helper (less(i, j)) whose integer
 // parameters index the comparison's operands; the helper's call arguments are
 // then the operands.
+// appendSlot: v is the index of the element that `ap` (stored by st into the buffer field) appended: the length of
+// the buffer read before the append, or the length read after it (same block, no other store of the buffer in
+// between) minus one.
+func (m *heapModel) appendSlot(v ssa.Value, ap *ssa.Call, st *ssa.Store) bool {
+	if ln, ok := isBuiltinCall(v, "len"); ok && isLoadOfField(ln.Call.Args[0], m.dataF) {
+		return dominatesInstr(ln, ap)
+	}
+	bo, ok := v.(*ssa.BinOp)
+	if !ok || bo.Op != token.SUB || !isConstInt(bo.Y, 1) {
+		return false
+	}
+	ln, ok := isBuiltinCall(bo.X, "len")
+	if !ok || !isLoadOfField(ln.Call.Args[0], m.dataF) || ln.Block() != st.Block() || !dominatesInstr(st, ln) {
+		return false
+	}
+	ld, _ := ln.Call.Args[0].(ssa.Instruction)
+	after := false
+	for _, in := range st.Block().Instrs {
+		if in == ssa.Instruction(st) {
+			after = true
+			continue
+		}
+		if in == ld {
+			break
+		}
+		if s2, ok := in.(*ssa.Store); ok && after {
+			if fa, ok := s2.Addr.(*ssa.FieldAddr); ok {
+				if _, f := fieldVarOf(fa); sameField(f, m.dataF) {
+					return false
+				}
+			}
+		}
+	}
+	return ld != nil && dominatesInstr(st, ld)
+}
+
 func (m *heapModel) cmpIndexOperands(fn *ssa.Function) []ssa.Value {
 	return m.cmpIndexOperandsDepth(fn, 0)
 }
@@ -413,6 +449,43 @@ func runC05(c *Ctx) {
 		}
 		childSet[f] = true
 	}
+	// comparisons made in a helper of sift-down (leastOf(i, lc)): an index there that is parameter + constant
+	// is the call's argument + that constant
+	allInstrs(m.siftDn, func(in ssa.Instruction) {
+		call, ok := in.(*ssa.Call)
+		if !ok {
+			return
+		}
+		h := origin(staticCallee(&call.Call))
+		if h == nil || h.Blocks == nil || h == origin(m.siftDn) || h == m.swapFn || h.Pkg != origin(m.siftDn).Pkg {
+			return
+		}
+		var hl []ssa.Value
+		hs := map[ssa.Value]bool{}
+		for _, ix := range m.cmpIndexOperandsDepth(h, 2) {
+			phiLeaves(ix, nil, hs, &hl)
+		}
+		for _, lf := range hl {
+			for pi, prm := range h.Params {
+				if pi >= len(call.Call.Args) {
+					continue
+				}
+				fp, ok := affOf(lf, prm, nil, 0)
+				if !ok || fp.a != 1 || fp.d != 1 {
+					continue
+				}
+				fa, ok := affOf(call.Call.Args[pi], m.dnPhi, known, 0)
+				if !ok || fa.d != 1 {
+					continue
+				}
+				f := aff{fa.a, fa.b + fp.b, 1}
+				if f.a == 1 && f.b == 0 {
+					continue
+				}
+				childSet[f] = true
+			}
+		}
+	})
 	if !childOK {
 		return
 	}
@@ -1677,8 +1750,7 @@ func runC06(c *Ctx) {
 								if !ok || !isLoadOfField(call.Call.Value, m.moveF) || len(call.Call.Args) != 2 {
 									return false
 								}
-								ln, ok := isBuiltinCall(call.Call.Args[1], "len")
-								if !ok || !isLoadOfField(ln.Call.Args[0], m.dataF) || !dominatesInstr(ln, ap) {
+								if !m.appendSlot(call.Call.Args[1], ap, x) {
 									return false
 								}
 								if isNotify(in2, call.Call.Args[1]) {
@@ -1726,9 +1798,20 @@ func runC06(c *Ctx) {
 		allInstrs(add, func(in ssa.Instruction) {
 			if ret, ok := in.(*ssa.Return); ok && len(ret.Results) == 1 {
 				if call, ok := ret.Results[0].(*ssa.Call); ok && m.siftUp != nil && staticCallee(&call.Call) == m.siftUp {
-					if ln, ok := isBuiltinCall(call.Call.Args[1], "len"); ok && isLoadOfField(ln.Call.Args[0], m.dataF) {
-						okRet = true
-					}
+					// the append of Add
+					allInstrs(add, func(in2 ssa.Instruction) {
+						st, ok := in2.(*ssa.Store)
+						if !ok {
+							return
+						}
+						if fa, ok := st.Addr.(*ssa.FieldAddr); ok {
+							if _, f := fieldVarOf(fa); sameField(f, m.dataF) {
+								if ap, ok := isBuiltinCall(st.Val, "append"); ok && m.appendSlot(call.Call.Args[1], ap, st) {
+									okRet = true
+								}
+							}
+						}
+					})
 				}
 			}
 		})
